@@ -206,7 +206,15 @@ class Calls:
     def model_clean(self, args, kwargs, node, env):
         S = self.ctx.S
         num = args[0] if args else TOP
-        dele = args[1] if len(args) > 1 else kwargs.get('deletechars', S.const(''))
+        if len(args) > 1:
+            dele = args[1]
+        elif 'deletechars' in kwargs:
+            dele = kwargs['deletechars']
+        else:
+            # the default of the signature as written today (C14 checks that it is the empty string)
+            from ..rawflow import clean_default
+            d0 = clean_default(self.ctx.prog)
+            dele = S.const(d0) if d0 is not None else TOP
         dv = S.const_value(env, dele) if isinstance(dele, Str) else None
         del_cls = self.B.cls_of_chars(dv) if dv is not None else self.B.ALL
         if not isinstance(num, Str):
